@@ -43,6 +43,7 @@ pub mod contracts {
     pub static mut AUTH_PID: u64 = 0;
     pub static mut AUTH_KIND: u8 = 0;
     pub static mut AUTH_SEQ: u64 = 0;
+    pub static mut FORGED_SEQ: u64 = 0;
     pub static mut AUTH_A: u64 = 0;
     pub static mut AUTH_B: u64 = 0;
     pub static mut AUTH_TOKEN: [u8; crate::NETCODE_CHALLENGE_TOKEN_BYTES] = [0; crate::NETCODE_CHALLENGE_TOKEN_BYTES];
